@@ -175,7 +175,15 @@ type scriptedResult struct {
 	problems []string
 }
 
-const stepLimit = 3 * time.Second
+const stepLimit = 10 * time.Second
+
+// settle waits until cond holds (at most d); used where the other read loop finishes a reaction asynchronously
+func settle(d time.Duration, cond func() bool) {
+	dl := time.Now().Add(d)
+	for time.Now().Before(dl) && !cond() {
+		time.Sleep(100 * time.Microsecond)
+	}
+}
 
 func runScripted(e *env, ops []sop, connectFails bool) (*scriptedResult, error) {
 	res := &scriptedResult{}
@@ -271,6 +279,10 @@ func runScripted(e *env, ops []sop, connectFails bool) (*scriptedResult, error) 
 				}
 				time.Sleep(100 * time.Microsecond)
 			}
+			if len(pendingPlan) > 0 && strings.HasPrefix(pendingPlan[0], "WTimeout") {
+				// the time-out closes D, the proxy then flush-closes U: wait for both close events
+				settle(stepLimit, func() bool { return rec.hasClose("D") && rec.hasClose("U") })
+			}
 			time.Sleep(300 * time.Microsecond)
 			res.events = append(res.events, evRead("U", op.data, "nil", pendingPlan...))
 			pendingPlan = nil
@@ -283,6 +295,9 @@ func runScripted(e *env, ops []sop, connectFails bool) (*scriptedResult, error) 
 			for time.Now().Before(dl) && !rec.hasClose("U") {
 				time.Sleep(100 * time.Microsecond)
 			}
+			// the proxy flush-closes D on the same goroutine right after U's close event (unless D already holds
+			// bytes a failed write left behind and the flush fails again - not generated)
+			settle(200*time.Millisecond, func() bool { return sc.isClosed() && rec.hasClose("D") })
 			time.Sleep(300 * time.Microsecond)
 			res.events = append(res.events, evRead("U", nil, "eof", pendingPlan...))
 			pendingPlan = nil
